@@ -718,8 +718,14 @@ def main_consumer_table(fx):
 # T6 / T7 blocking structure
 # --------------------------------------------------------------------------
 
-def thread_roles(fx):
-    """role name -> entry function path. Roles: main, closures given to thread::spawn, closures given to the pool."""
+def thread_roles(fx, _memo={}):
+    """role name -> entry function path. Roles: main, closures given to thread::spawn, closures given to the pool.
+    Found in the functions as written and, for closures that reach the spawn through a generic helper
+    (`crew.spawn_worker(move || ..)`), in the inlined views of the entry points and of the roles found so far."""
+    k = id(fx)
+    if k in _memo and _memo[k][0] is fx:
+        return _memo[k][1], _memo[k][2]
+    import views
     roles = {"main": MAIN}
     kinds = {"main": "main"}
     for f in ro.fns_in_scope(fx, crates=("libxcp", "xcp")):
@@ -731,6 +737,29 @@ def thread_roles(fx):
             for fv in t["fn"].get("fnvals", []):
                 roles[fv] = fv
                 kinds[fv] = "pool-job"
+    todo = [e for e in list(ENTRY_POINTS) + [MAIN] if e in fx.fns] + [e for e in roles.values() if e in fx.fns and e != MAIN]
+    done = set()
+    while todo:
+        e = todo.pop()
+        if e in done:
+            continue
+        done.add(e)
+        try:
+            v = views.view(fx, e)
+        except Exception:
+            continue
+        if v is None:
+            continue
+        for bi, t in v.calls():
+            o = callee_orig(t)
+            if o not in (SPAWN, POOL_EXECUTE):
+                continue
+            for fv in (t["fn"].get("fnvals") or []):
+                if fv in fx.fns and fx.fns[fv].is_closure and fv not in roles:
+                    roles[fv] = fv
+                    kinds[fv] = "thread" if o == SPAWN else "pool-job"
+                    todo.append(fv)
+    _memo[k] = (fx, roles, kinds)
     return roles, kinds
 
 
